@@ -65,6 +65,8 @@ def gen_plan(rng, tier, i):
         "frame": rng.choice(INERTIAL + ["EME2000", "ITRF"]),
         "form": rng.choice(["cartesian", "cartesian", "cartesian", "spherical"]),
         "degree": rng.randint(0, max(0, (order if method == "lagrange" else 2) - 1)),
+        # the points may be handed to the constructor in any order (two arcs concatenated latest first, a grid plus extra dates...)
+        "given_order": rng.choice(["sorted", "sorted", "reversed", "shuffled", "arcs_swapped"]),
     }
     ops = []
     for _ in range(rng.randint(4, 12)):
@@ -127,6 +129,14 @@ def build_ephem(node, spec):
         else:
             p = node.StateVector(poly_eval(spec, t), d, "cartesian", spec["frame"])
         pts.append(p)
+    go = spec.get("given_order", "sorted")
+    if go == "reversed":
+        pts = pts[::-1]
+    elif go == "shuffled":
+        np.random.RandomState(spec["jseed"] + 7).shuffle(pts)
+    elif go == "arcs_swapped":
+        h = len(pts) // 2
+        pts = pts[h:] + pts[:h]
     return node.Ephem(pts, method=spec["method"], order=spec["order"])
 
 
@@ -142,6 +152,7 @@ class World:
         self.pristine = self.mknode("pristine")
         with self.node:
             self.eph = build_ephem(self.node, self.spec)
+        self.m_method, self.m_order = self.spec["method"], self.spec["order"]  # what the caller set last
         self.pure = True  # only the statement's own inputs so far (no in-place change since creation)
         self.since = set()  # what happened since the last judged interpolation
         self.it = None
@@ -184,6 +195,12 @@ class World:
             pts = list(e)
             npts = len(pts)
             method, order = str(e.method).lower(), int(e.order)
+            if (method, order) != (self.m_method, self.m_order):
+                ctx.violate(
+                    "settings-kept",
+                    {"kind": "interpolation_settings_changed_by_themselves", "after": ",".join(sorted(self.since)) or "-"},
+                    f"{where}: the caller last set method / order to {self.m_method} / {self.m_order}, the ephemeris now says {method} / {order} (since the last query: {','.join(sorted(self.since)) or '-'})",
+                )
             need = 2 if method == "linear" else order
             td = n.timedelta
             w = op["where"]
@@ -279,7 +296,8 @@ class World:
             span = max(table_dates_s(spec)[-1], 1.0)
             slope = float(np.max(np.sum(np.abs(poly_coeffs(spec)) * np.arange(spec["degree"] + 1), axis=1) / sc)) / span
             ctx.observe("poly_rel", perr)
-            if perr > TOLERANCES["poly_rel"] + 2e-6 * slope:
+            # ... and the rounding of the abscissa differences is amplified by the high-order basis on near-equispaced nodes
+            if perr > TOLERANCES["poly_rel"] * (1.0 + 2.0 ** (order / 2.0)) + 2e-6 * slope:
                 ctx.violate("polynomial-reproduction", dict(fp, kind="polynomial_not_reproduced", degree=spec["degree"]), f"{where}: a degree-{spec['degree']} polynomial table interpolated with {method} order {order} is off by {perr:.3e} (relative) at {w}")
             else:
                 ctx.probe("polynomial_reproduced")
@@ -313,11 +331,13 @@ class World:
     def op_set_order(self, op, where):
         with self.node:
             self.eph.order = op["order"]
+        self.m_order = op["order"]
         self.since.add("setting")
 
     def op_set_method(self, op, where):
         with self.node:
             self.eph.method = op["method"]
+        self.m_method = op["method"]
         self.since.add("setting")
 
     def op_iter_start(self, op, where):
@@ -368,6 +388,8 @@ class World:
     def op_copy(self, op, where):
         with self.node:
             self.eph = self.eph.copy()
+            # Ephem.copy() builds the new ephemeris with the default method and order (no listed property says otherwise): re-read them
+            self.m_method, self.m_order = str(self.eph.method).lower(), int(self.eph.order)
         self.it = None
         self.since.add("copy")
 
